@@ -19,10 +19,39 @@
 (*                                                                         *)
 (* ASSUMED (raft's own safety, not this repository's property): there is   *)
 (* one growing committed sequence; committed entries are never lost or     *)
-(* reordered while a majority of disks survives; a node only becomes       *)
-(* leader if it durably holds every committed entry; an entry is committed *)
-(* only when a majority holds it.  Raft's internal entries (no-op,         *)
-(* configuration) are invisible to the FSM and are left out.               *)
+(* reordered while a majority of disks survives; an entry is committed     *)
+(* only when a majority OF THE CONFIGURATION IN FORCE holds it; a node     *)
+(* only becomes leader with the votes of such a majority, none of which    *)
+(* holds more than the candidate (LeaderComplete is then an invariant TLC  *)
+(* checks, not an assumption).  Raft's no-op entries are invisible to the  *)
+(* FSM and are left out.                                                   *)
+(*                                                                         *)
+(* MEMBERSHIP (api.handleJoin / api.handlePart -> raft AddPeer/RemovePeer, *)
+(* robustirc.go joinMaster, cmd/robustirc-removepeer):                     *)
+(*   Join(n)    a fresh process n (empty -raftdir, started with -join)     *)
+(*              POSTs /join; the request is proxied to the leader, which   *)
+(*              APPENDS a configuration entry.  hashicorp/raft uses a      *)
+(*              configuration from the moment it is appended: n counts for *)
+(*              every quorum from here on, also for the commit of this     *)
+(*              very entry.  Only one change at a time (the leader accepts *)
+(*              a change only when the latest configuration is committed). *)
+(*   Part(n)    same for POST /part; n stops counting at once.  A leader   *)
+(*              that removes itself leads until the entry is committed,    *)
+(*              then raft shuts down and main() terminates the process.    *)
+(*              Never below two members (robustirc-removepeer refuses, and *)
+(*              main() does not start a node that only knows itself).      *)
+(*   CommitCfg  a majority of the NEW configuration holds the entry (and   *)
+(*              therefore everything before it).  Committing any later     *)
+(*              entry (Propose) commits the pending configuration as well. *)
+(*   Elect      with an uncommitted configuration entry around, the new    *)
+(*              leader either has it (it stays pending) or not (it is      *)
+(*              rolled back; a joining process whose request failed exits).*)
+(*   InstallSnapshot(n)  the entries n needs were compacted out of the     *)
+(*              leader's raft log (raft.Config.TrailingLogs behind its     *)
+(*              newest snapshot): the leader ships the snapshot over the   *)
+(*              HTTP raft transport, FSM.Restore REPLACES n's state, the   *)
+(*              log tail follows by Replicate.                             *)
+(*   Retire(n)  "it is now safe to kill the process and remove the data".  *)
 (*                                                                         *)
 (* The constant F7 selects what the leader's duplicate test reads:         *)
 (*   F7 = TRUE   as the code behaves: the APPLIED state of the node, which *)
@@ -44,7 +73,10 @@ CONSTANTS Nodes,            \* e.g. {1,2,3}
           Clients,          \* e.g. {1,2}; every client is one session, all in one channel
           MaxCmid,          \* posts per client; ClientMessageIds are 1..MaxCmid
           MaxKills, MaxSnaps, MaxLeaderChanges, MaxPauses, MaxFails,
-          F7                \* BOOLEAN, see above
+          F7,               \* BOOLEAN, see above
+          InitSize,         \* number of nodes in the initial configuration (the others join later)
+          MaxJoins, MaxParts,
+          Trailing          \* raft.Config.TrailingLogs: entries kept in the raft log behind a snapshot
 
 None == 0
 ASSUME None \notin Nodes
@@ -64,13 +96,19 @@ VARIABLES
             \*             at a (paused, slow) node; nobody waits for its answer
   acked,    \* set of [c, cmid] answered with success
   budget,   \* remaining fault budgets
+  members,  \* the latest raft configuration: the set of voters
+  pending,  \* the configuration entry that is appended but not yet committed (at most one)
+  trunc,    \* trunc[n]  : entries 1..trunc[n] are gone from n's raft log (compacted behind a snapshot)
   hist      \* history of controllable steps (the fault schedule), not part of the VIEW
 
-vars == <<log, leader, up, paused, inc, held, snap, applied, cur, req, old, acked, budget, hist>>
-view == <<log, leader, up, paused, inc, held, snap, applied, cur, req, old, acked, budget>>
+vars == <<log, leader, up, paused, inc, held, snap, applied, cur, req, old, acked, budget, members, pending, trunc, hist>>
+view == <<log, leader, up, paused, inc, held, snap, applied, cur, req, old, acked, budget, members, pending, trunc>>
 
 Idle == [st |-> "idle", node |-> None, inc |-> 0, idx |-> 0]
 NoOld == [st |-> "none", node |-> None, inc |-> 0, cmid |-> 0]
+\* kind: "none" | "join" | "part"; n: the node added/removed; by: the leader that appended
+\* the entry; prev: the configuration it replaces
+NoCfg == [kind |-> "none", n |-> None, by |-> None, prev |-> {}]
 
 ------------------------------------------------------------------------------
 Applied(n) == SubSeq(log, 1, applied[n])
@@ -91,15 +129,42 @@ ProposerSeen(n, c, cmid) ==
         ELSE \E i \in 1..held[n] : log[i] = [c |-> c, cmid |-> cmid]
 
 Live(n) == up[n] /\ ~paused[n]
-Majority(Q) == 2 * Cardinality(Q) > Cardinality(Nodes)
 LiveNodes == {n \in Nodes : Live(n)}
+MajorityOf(Q, M) == Q \subseteq M /\ 2 * Cardinality(Q) > Cardinality(M)
+Majority(Q) == MajorityOf(Q, members)
+
+\* Q can commit what the leader appends: live voters of the configuration in force, a
+\* majority of it, each of which the leader can bring up to date from its raft LOG
+\* (otherwise InstallSnapshot has to come first).  The leader itself writes the entry to
+\* its own log before anything else; it counts only while it is a voter (a leader that
+\* removes itself commits with the others' votes only).
+Reachable(q) == q = leader \/ held[q] >= trunc[leader] \/ held[q] = Len(log)
+Quorum(Q) == /\ Q \subseteq LiveNodes /\ Majority(Q)
+             /\ (leader \in members => leader \in Q)
+             /\ {q \in Q : ~Reachable(q)} = {}
+
+SelfRemoval == pending.kind = "part" /\ pending.n = leader
+
+\* raft commits in log order: whatever is committed, a pending configuration entry before
+\* it is committed too.  A leader that has removed itself now steps down; raft shuts down
+\* (ShutdownOnRemove) and main() ends the process ("Node removed from the network").
+CommitPending ==
+  /\ pending' = NoCfg
+  /\ IF SelfRemoval
+       THEN /\ leader' = None
+            /\ up' = [up EXCEPT ![leader] = FALSE]
+            /\ applied' = [applied EXCEPT ![leader] = 0]
+       ELSE UNCHANGED <<leader, up, applied>>
 
 Init ==
   /\ log = << >>
-  /\ leader \in Nodes
-  /\ up = [n \in Nodes |-> TRUE]
+  /\ members \in {M \in SUBSET Nodes : Cardinality(M) = InitSize}
+  /\ leader \in members
+  /\ up = [n \in Nodes |-> n \in members]
   /\ paused = [n \in Nodes |-> FALSE]
-  /\ inc = [n \in Nodes |-> 1]
+  /\ inc = [n \in Nodes |-> IF n \in members THEN 1 ELSE 0]
+  /\ pending = NoCfg
+  /\ trunc = [n \in Nodes |-> 0]
   /\ held = [n \in Nodes |-> 0]
   /\ snap = [n \in Nodes |-> 0]
   /\ applied = [n \in Nodes |-> 0]
@@ -108,10 +173,12 @@ Init ==
   /\ old = [c \in Clients |-> NoOld]
   /\ acked = {}
   /\ budget = [kills |-> MaxKills, snaps |-> MaxSnaps, lc |-> MaxLeaderChanges,
-               pauses |-> MaxPauses, fails |-> MaxFails]
-  /\ hist = <<[a |-> "Init", n |-> leader]>>
+               pauses |-> MaxPauses, fails |-> MaxFails, joins |-> MaxJoins, parts |-> MaxParts]
+  /\ hist = <<[a |-> "Init", n |-> leader, members |-> members]>>
 
 H(r) == hist' = Append(hist, r)
+
+cfgvars == <<members, pending, trunc>>
 
 ------------------------------------------------------------------------------
 (* Clients (the bridge protocol)                                            *)
@@ -122,7 +189,7 @@ Post(c, n) ==
   /\ cur' = [cur EXCEPT ![c] = @ + 1]
   /\ req' = [req EXCEPT ![c] = [st |-> "sent", node |-> n, inc |-> inc[n], idx |-> 0]]
   /\ H([a |-> "Post", c |-> c, cmid |-> cur[c] + 1, n |-> n])
-  /\ UNCHANGED <<old, log, leader, up, paused, inc, held, snap, applied, acked, budget>>
+  /\ UNCHANGED <<old, log, leader, up, paused, inc, held, snap, applied, acked, budget, cfgvars>>
 
 \* the client gives up on the outstanding request (timeout) ...
 Timeout(c) ==
@@ -132,21 +199,21 @@ Timeout(c) ==
   /\ old' = [old EXCEPT ![c] = IF req[c].st = "proposed" THEN @
                                 ELSE [st |-> req[c].st, node |-> req[c].node, inc |-> req[c].inc, cmid |-> cur[c]]]
   /\ H([a |-> "Timeout", c |-> c, cmid |-> cur[c]])
-  /\ UNCHANGED <<log, leader, up, paused, inc, held, snap, applied, cur, acked>>
+  /\ UNCHANGED <<log, leader, up, paused, inc, held, snap, applied, cur, acked, cfgvars>>
 
 \* ... or the process handling it is gone (connection error, 5xx from a proxy)
 Lost(c) ==
   /\ req[c].st \in {"sent", "proxied", "proposed"}
   /\ (~up[req[c].node] \/ inc[req[c].node] # req[c].inc)
   /\ req' = [req EXCEPT ![c].st = "failed"]
-  /\ UNCHANGED <<old, log, leader, up, paused, inc, held, snap, applied, cur, acked, budget, hist>>
+  /\ UNCHANGED <<old, log, leader, up, paused, inc, held, snap, applied, cur, acked, budget, cfgvars, hist>>
 
 \* the same ClientMessageId again, at any node
 Retry(c, n) ==
   /\ req[c].st = "failed" /\ up[n]
   /\ req' = [req EXCEPT ![c] = [st |-> "sent", node |-> n, inc |-> inc[n], idx |-> 0]]
   /\ H([a |-> "Retry", c |-> c, cmid |-> cur[c], n |-> n])
-  /\ UNCHANGED <<old, log, leader, up, paused, inc, held, snap, applied, cur, acked, budget>>
+  /\ UNCHANGED <<old, log, leader, up, paused, inc, held, snap, applied, cur, acked, budget, cfgvars>>
 
 ------------------------------------------------------------------------------
 (* api.handlePostMessage                                                    *)
@@ -158,13 +225,15 @@ Success(c) ==
   /\ req' = [req EXCEPT ![c] = Idle]
 
 \* "If we have already seen this message, we just reply with a canned response."
-\* The test runs on whatever node handles the request, against ITS applied state.
+\* The test runs on whatever node handles the request, against ITS applied state
+\* (also on a node that was removed from the network and lives on with a stale state,
+\* and on a node that joined late and got its state by InstallSnapshot).
 HandleDuplicate(c) ==
   /\ req[c].st \in {"sent", "proxied"} /\ Alive(c)
   /\ LastPostMessage(req[c].node, c) = cur[c]
   /\ Success(c)
   /\ H([a |-> "AckDup", c |-> c, cmid |-> cur[c], n |-> req[c].node])
-  /\ UNCHANGED <<old, log, leader, up, paused, inc, held, snap, applied, cur, budget>>
+  /\ UNCHANGED <<old, log, leader, up, paused, inc, held, snap, applied, cur, budget, cfgvars>>
 
 \* not a duplicate here, and this node is not the leader: maybeProxyToLeader
 HandleProxy(c) ==
@@ -174,7 +243,7 @@ HandleProxy(c) ==
   /\ IF leader # None /\ up[leader]
        THEN req' = [req EXCEPT ![c] = [st |-> "proxied", node |-> leader, inc |-> inc[leader], idx |-> 0]]
        ELSE req' = [req EXCEPT ![c].st = "failed"]     \* "No leader known" / proxy error
-  /\ UNCHANGED <<old, log, leader, up, paused, inc, held, snap, applied, cur, acked, budget, hist>>
+  /\ UNCHANGED <<old, log, leader, up, paused, inc, held, snap, applied, cur, acked, budget, cfgvars, hist>>
 
 \* a proxied request arrives at a node that is no longer the leader: error
 HandleStaleProxy(c) ==
@@ -182,19 +251,20 @@ HandleStaleProxy(c) ==
   /\ LastPostMessage(req[c].node, c) # cur[c]
   /\ req[c].node # leader
   /\ req' = [req EXCEPT ![c].st = "failed"]
-  /\ UNCHANGED <<old, log, leader, up, paused, inc, held, snap, applied, cur, acked, budget, hist>>
+  /\ UNCHANGED <<old, log, leader, up, paused, inc, held, snap, applied, cur, acked, budget, cfgvars, hist>>
 
-\* the leader proposes; raft commits once a majority holds the entry.
-\* The duplicate test that guards this step is ProposerLast (see F7).
+\* the leader proposes; raft commits once a majority OF THE CONFIGURATION IN FORCE holds
+\* the entry.  The duplicate test that guards this step is ProposerSeen (see F7).
 Propose(c, Q) ==
   /\ req[c].st \in {"sent", "proxied"} /\ Alive(c)
   /\ req[c].node = leader
   /\ ~ProposerSeen(leader, c, cur[c])
-  /\ leader \in Q /\ Q \subseteq LiveNodes /\ Majority(Q)
+  /\ Quorum(Q)
   /\ log' = Append(log, [c |-> c, cmid |-> cur[c]])
-  /\ held' = [n \in Nodes |-> IF n \in Q THEN Len(log) + 1 ELSE held[n]]
+  /\ held' = [n \in Nodes |-> IF n \in Q \cup {leader} THEN Len(log) + 1 ELSE held[n]]
   /\ req' = [req EXCEPT ![c].st = "proposed", ![c].idx = Len(log) + 1]
-  /\ UNCHANGED <<old, leader, up, paused, inc, snap, applied, cur, acked, budget, hist>>
+  /\ CommitPending
+  /\ UNCHANGED <<old, paused, inc, snap, cur, acked, budget, members, trunc, hist>>
 
 \* idealised leader only: the entry is committed but not yet applied here
 HandleCommittedDuplicate(c) ==
@@ -204,7 +274,7 @@ HandleCommittedDuplicate(c) ==
   /\ LastPostMessage(leader, c) # cur[c] /\ ProposerSeen(leader, c, cur[c])
   /\ Success(c)
   /\ H([a |-> "AckDup", c |-> c, cmid |-> cur[c], n |-> leader])
-  /\ UNCHANGED <<old, log, leader, up, paused, inc, held, snap, applied, cur, budget>>
+  /\ UNCHANGED <<old, log, leader, up, paused, inc, held, snap, applied, cur, budget, cfgvars>>
 
 \* A request the client has given up on is still handled when it reaches a live
 \* handler (the handler does not look at the request context): same code path,
@@ -219,25 +289,26 @@ ZombieDrop(c) ==
           /\ (old[c].st = "proxied" \/ leader = None \/ (leader # None /\ ~up[leader]))   \* proxy error
      \/ ZombieAlive(c) /\ old[c].node = leader /\ ProposerSeen(leader, c, old[c].cmid)
   /\ old' = [old EXCEPT ![c] = NoOld]
-  /\ UNCHANGED <<log, leader, up, paused, inc, held, snap, applied, cur, req, acked, budget, hist>>
+  /\ UNCHANGED <<log, leader, up, paused, inc, held, snap, applied, cur, req, acked, budget, cfgvars, hist>>
 
 ZombieProxy(c) ==
   /\ old[c].st = "sent" /\ ZombieAlive(c)
   /\ LastPostMessage(old[c].node, c) # old[c].cmid
   /\ old[c].node # leader /\ leader # None /\ up[leader]
   /\ old' = [old EXCEPT ![c].st = "proxied", ![c].node = leader, ![c].inc = inc[leader]]
-  /\ UNCHANGED <<log, leader, up, paused, inc, held, snap, applied, cur, req, acked, budget, hist>>
+  /\ UNCHANGED <<log, leader, up, paused, inc, held, snap, applied, cur, req, acked, budget, cfgvars, hist>>
 
 ZombiePropose(c, Q) ==
   /\ old[c].st \in {"sent", "proxied"} /\ ZombieAlive(c)
   /\ old[c].node = leader
   /\ LastPostMessage(leader, c) # old[c].cmid
   /\ ~ProposerSeen(leader, c, old[c].cmid)
-  /\ leader \in Q /\ Q \subseteq LiveNodes /\ Majority(Q)
+  /\ Quorum(Q)
   /\ log' = Append(log, [c |-> c, cmid |-> old[c].cmid])
-  /\ held' = [n \in Nodes |-> IF n \in Q THEN Len(log) + 1 ELSE held[n]]
+  /\ held' = [n \in Nodes |-> IF n \in Q \cup {leader} THEN Len(log) + 1 ELSE held[n]]
   /\ old' = [old EXCEPT ![c] = NoOld]
-  /\ UNCHANGED <<leader, up, paused, inc, snap, applied, cur, req, acked, budget, hist>>
+  /\ CommitPending
+  /\ UNCHANGED <<paused, inc, snap, cur, req, acked, budget, members, trunc, hist>>
 
 \* applyMessageWait returned (hook H3 "api.applied" sits exactly here: committed
 \* and applied on the proposing node, not yet acknowledged), the handler replies
@@ -246,31 +317,54 @@ Respond(c) ==
   /\ applied[req[c].node] >= req[c].idx
   /\ Success(c)
   /\ H([a |-> "Ack", c |-> c, cmid |-> cur[c], n |-> req[c].node])
-  /\ UNCHANGED <<old, log, leader, up, paused, inc, held, snap, applied, cur, budget>>
+  /\ UNCHANGED <<old, log, leader, up, paused, inc, held, snap, applied, cur, budget, cfgvars>>
 
 ------------------------------------------------------------------------------
 (* Nodes                                                                    *)
 
-\* a follower receives the committed entries it misses
+\* the nodes the leader replicates to: the voters of the latest configuration, and a
+\* node that is being removed until it has the entry that removes it
+Replicated == members \cup (IF pending.kind = "part" THEN {pending.n} ELSE {})
+
+\* a follower receives the committed entries it misses - as long as the first one it
+\* needs is still in the leader's raft log
 Replicate(n) ==
-  /\ Live(n) /\ leader # None /\ Live(leader) /\ n # leader
+  /\ Live(n) /\ leader # None /\ Live(leader) /\ n # leader /\ n \in Replicated
   /\ held[n] < Len(log)
+  /\ held[n] >= trunc[leader]
   /\ held' = [held EXCEPT ![n] = Len(log)]
-  /\ UNCHANGED <<log, leader, up, paused, inc, snap, applied, cur, req, old, acked, budget, hist>>
+  /\ UNCHANGED <<log, leader, up, paused, inc, snap, applied, cur, req, old, acked, budget, cfgvars, hist>>
+
+\* ... otherwise (raft replicateTo -> ErrLogNotFound -> sendLatestSnapshot, over
+\* robustirc's HTTP raft transport): the leader's newest snapshot is stored on n and
+\* FSM.Restore REPLACES n's state with it; n's own log is gone up to that point.
+\* This is how a node that joins late gets its state.
+InstallSnapshot(n) ==
+  /\ Live(n) /\ leader # None /\ Live(leader) /\ n # leader /\ n \in Replicated
+  /\ held[n] < trunc[leader]
+  /\ held' = [held EXCEPT ![n] = snap[leader]]
+  /\ snap' = [snap EXCEPT ![n] = snap[leader]]
+  /\ applied' = [applied EXCEPT ![n] = snap[leader]]
+  /\ trunc' = [trunc EXCEPT ![n] = snap[leader]]
+  /\ UNCHANGED <<log, leader, up, paused, inc, cur, req, old, acked, budget, members, pending, hist>>
 
 \* FSM.Apply: one entry
 Apply(n) ==
   /\ Live(n) /\ applied[n] < held[n]
   /\ applied' = [applied EXCEPT ![n] = @ + 1]
-  /\ UNCHANGED <<log, leader, up, paused, inc, held, snap, cur, req, old, acked, budget, hist>>
+  /\ UNCHANGED <<log, leader, up, paused, inc, held, snap, cur, req, old, acked, budget, cfgvars, hist>>
 
-\* GET /snapshot: FSM.Snapshot + Persist
+\* GET /snapshot: FSM.Snapshot + Persist, then raft compacts its log: everything up to
+\* the snapshot goes, except the last `Trailing` entries (raft.compactLogs)
 ForceSnapshot(n) ==
   /\ Live(n) /\ budget.snaps > 0 /\ applied[n] > snap[n]
   /\ snap' = [snap EXCEPT ![n] = applied[n]]
+  /\ trunc' = [trunc EXCEPT ![n] =
+                  LET upto == IF applied[n] < held[n] - Trailing THEN applied[n] ELSE held[n] - Trailing
+                  IN  IF upto > @ THEN upto ELSE @]
   /\ budget' = [budget EXCEPT !.snaps = @ - 1]
   /\ H([a |-> "Snapshot", n |-> n])
-  /\ UNCHANGED <<log, leader, up, paused, inc, held, applied, cur, req, old, acked>>
+  /\ UNCHANGED <<log, leader, up, paused, inc, held, applied, cur, req, old, acked, members, pending>>
 
 \* "atgate": the process dies between applyMessageWait's return and the reply
 AtAckGate(n) == \E c \in Clients : req[c].st = "proposed" /\ req[c].node = n
@@ -285,40 +379,122 @@ Kill(n) ==
   /\ leader' = IF leader = n THEN None ELSE leader
   /\ budget' = [budget EXCEPT !.kills = @ - 1]
   /\ H([a |-> "Kill", n |-> n, wasleader |-> (leader = n), atgate |-> AtAckGate(n)])
-  /\ UNCHANGED <<log, inc, held, snap, cur, req, old, acked>>
+  /\ UNCHANGED <<log, inc, held, snap, cur, req, old, acked, cfgvars>>
 
 \* restart: FSM.Restore(newest snapshot), then the held entries are replayed by Apply
 Restart(n) ==
-  /\ ~up[n]
+  /\ ~up[n] /\ inc[n] > 0
+  /\ (n \in members \/ pending.n = n)         \* a removed node's process is not started again
   /\ up' = [up EXCEPT ![n] = TRUE]
   /\ inc' = [inc EXCEPT ![n] = @ + 1]
   /\ applied' = [applied EXCEPT ![n] = snap[n]]
   /\ H([a |-> "Restart", n |-> n])
-  /\ UNCHANGED <<log, leader, paused, held, snap, cur, req, old, acked, budget>>
+  /\ UNCHANGED <<log, leader, paused, held, snap, cur, req, old, acked, budget, cfgvars>>
 
 Pause(n) ==
   /\ Live(n) /\ budget.pauses > 0
   /\ paused' = [paused EXCEPT ![n] = TRUE]
   /\ budget' = [budget EXCEPT !.pauses = @ - 1]
   /\ H([a |-> "Pause", n |-> n, wasleader |-> (leader = n)])
-  /\ UNCHANGED <<log, leader, up, inc, held, snap, applied, cur, req, old, acked>>
+  /\ UNCHANGED <<log, leader, up, inc, held, snap, applied, cur, req, old, acked, cfgvars>>
 
 Resume(n) ==
   /\ up[n] /\ paused[n]
   /\ paused' = [paused EXCEPT ![n] = FALSE]
   /\ H([a |-> "Resume", n |-> n])
-  /\ UNCHANGED <<log, leader, up, inc, held, snap, applied, cur, req, old, acked, budget>>
+  /\ UNCHANGED <<log, leader, up, inc, held, snap, applied, cur, req, old, acked, budget, cfgvars>>
 
-\* raft elects n: it holds every committed entry and a majority can vote.
-\* Free when there is no (reachable) leader, budgeted otherwise.
-Elect(n) ==
-  /\ Live(n) /\ n # leader /\ held[n] = Len(log) /\ Majority(LiveNodes)
+\* raft elects n with the votes of a majority of the configuration the election runs
+\* under; a node votes for n only if it holds no more than n does.  Free when there is no (reachable)
+\* leader, budgeted otherwise.  An uncommitted configuration entry either is in n's log
+\* (keep: the election ran under it, it stays pending and n will commit it) or is not
+\* (the election ran under the previous configuration, the entry is discarded; the
+\* process whose join request failed that way exits: robustirc.go joinMaster log.Fatal).
+\* The leader that appended the entry has it for sure.
+Elect(n, keep) ==
+  LET M == IF keep THEN members ELSE pending.prev
+      votes == {q \in LiveNodes \cap M : held[q] <= held[n]}
+  IN
+  /\ Live(n) /\ n # leader
+  /\ (keep \/ (pending.kind # "none" /\ n # pending.by)) = TRUE
+  /\ n \in M /\ MajorityOf(votes, M)
   /\ IF leader = None \/ ~Live(leader)
        THEN UNCHANGED budget
        ELSE budget.lc > 0 /\ budget' = [budget EXCEPT !.lc = @ - 1]
   /\ leader' = n
+  /\ IF keep
+       THEN UNCHANGED <<members, pending, up, applied>>
+       ELSE /\ members' = pending.prev
+            /\ pending' = NoCfg
+            /\ IF pending.kind = "join"
+                 THEN /\ up' = [up EXCEPT ![pending.n] = FALSE]
+                      /\ applied' = [applied EXCEPT ![pending.n] = 0]
+                 ELSE UNCHANGED <<up, applied>>
   /\ H([a |-> "LeaderChange", n |-> n, forced |-> (leader # None /\ Live(leader))])
-  /\ UNCHANGED <<log, up, paused, inc, held, snap, applied, cur, req, old, acked>>
+  /\ UNCHANGED <<log, paused, inc, held, snap, trunc, cur, req, old, acked>>
+
+ElectAny(n) == \E keep \in (IF pending.kind = "none" THEN {TRUE} ELSE BOOLEAN) : Elect(n, keep)
+
+------------------------------------------------------------------------------
+(* Membership                                                               *)
+
+\* a fresh process n, started with -join=<peer>: POST /join reaches the leader (directly
+\* or through maybeProxyToLeader), raftNode.AddPeer appends the configuration entry
+Join(n) ==
+  /\ budget.joins > 0
+  /\ n \notin members /\ ~up[n]
+  /\ pending.kind = "none"                    \* raft: only when the latest configuration is committed
+  /\ leader # None /\ Live(leader)
+  /\ members' = members \cup {n}
+  /\ pending' = [kind |-> "join", n |-> n, by |-> leader, prev |-> members]
+  /\ up' = [up EXCEPT ![n] = TRUE]
+  /\ inc' = [inc EXCEPT ![n] = @ + 1]
+  /\ held' = [held EXCEPT ![n] = 0]           \* empty -raftdir
+  /\ snap' = [snap EXCEPT ![n] = 0]
+  /\ trunc' = [trunc EXCEPT ![n] = 0]
+  /\ applied' = [applied EXCEPT ![n] = 0]
+  /\ budget' = [budget EXCEPT !.joins = @ - 1]
+  /\ H([a |-> "Join", n |-> n])
+  /\ UNCHANGED <<log, leader, paused, cur, req, old, acked>>
+
+\* POST /part (robustirc-removepeer): raftNode.RemovePeer appends the configuration entry.
+\* robustirc-removepeer refuses to go below three nodes ("cannot remove any more nodes or
+\* the network will freeze"), and main() refuses to start a node whose configuration is
+\* just itself ("Only known peer is myself ... this node was removed from the network"):
+\* a network is never shrunk below two members.
+Part(n) ==
+  /\ budget.parts > 0
+  /\ n \in members /\ Cardinality(members) > 2
+  /\ pending.kind = "none"
+  /\ leader # None /\ Live(leader)
+  /\ members' = members \ {n}
+  /\ pending' = [kind |-> "part", n |-> n, by |-> leader, prev |-> members]
+  /\ budget' = [budget EXCEPT !.parts = @ - 1]
+  /\ H([a |-> "Part", n |-> n, wasleader |-> (n = leader)])
+  /\ UNCHANGED <<log, leader, up, paused, inc, held, snap, applied, trunc, cur, req, old, acked>>
+
+\* the configuration entry is committed: the request is answered (the joining process
+\* carries on / robustirc-removepeer reports success)
+CommitCfg(Q) ==
+  /\ pending.kind # "none" /\ leader # None /\ Live(leader)
+  /\ Quorum(Q)
+  /\ held' = [n \in Nodes |-> IF n \in Q THEN Len(log) ELSE held[n]]
+  /\ CommitPending
+  /\ H([a |-> "CfgDone", kind |-> pending.kind, n |-> pending.n])
+  /\ UNCHANGED <<log, paused, inc, snap, trunc, cur, req, old, acked, budget, members>>
+
+\* "It is now safe to kill the robustirc process on that node and remove the data."
+Retire(n) ==
+  /\ n \notin members /\ pending.n # n /\ inc[n] > 0
+  /\ (up[n] \/ held[n] > 0 \/ snap[n] > 0)
+  /\ up' = [up EXCEPT ![n] = FALSE]
+  /\ paused' = [paused EXCEPT ![n] = FALSE]
+  /\ applied' = [applied EXCEPT ![n] = 0]
+  /\ held' = [held EXCEPT ![n] = 0]
+  /\ snap' = [snap EXCEPT ![n] = 0]
+  /\ trunc' = [trunc EXCEPT ![n] = 0]
+  /\ H([a |-> "Retire", n |-> n])
+  /\ UNCHANGED <<log, leader, inc, cur, req, old, acked, budget, members, pending>>
 
 Next ==
   \/ \E c \in Clients, n \in Nodes : Post(c, n) \/ Retry(c, n)
@@ -326,8 +502,11 @@ Next ==
                         \/ HandleStaleProxy(c) \/ HandleCommittedDuplicate(c) \/ Respond(c)
                         \/ ZombieDrop(c) \/ ZombieProxy(c)
                         \/ \E Q \in SUBSET Nodes : Propose(c, Q) \/ ZombiePropose(c, Q)
-  \/ \E n \in Nodes : \/ Replicate(n) \/ Apply(n) \/ ForceSnapshot(n) \/ Kill(n)
-                      \/ Restart(n) \/ Pause(n) \/ Resume(n) \/ Elect(n)
+  \/ \E n \in Nodes : \/ Replicate(n) \/ InstallSnapshot(n) \/ Apply(n) \/ ForceSnapshot(n) \/ Kill(n)
+                      \/ Restart(n) \/ Pause(n) \/ Resume(n)
+                      \/ Join(n) \/ Part(n) \/ Retire(n)
+                      \/ ElectAny(n)
+  \/ \E Q \in SUBSET Nodes : CommitCfg(Q)
 
 Spec == Init /\ [][Next]_vars
 
@@ -338,19 +517,35 @@ NodeSymmetry == Permutations(Nodes)
 
 TypeOK ==
   /\ leader \in Nodes \cup {None}
-  /\ \A n \in Nodes : snap[n] <= held[n] /\ applied[n] <= held[n] /\ held[n] <= Len(log)
+  /\ members \subseteq Nodes /\ members # {}
+  /\ (leader # None => leader \in members \/ SelfRemoval)
+  /\ \A n \in Nodes : /\ snap[n] <= held[n] /\ applied[n] <= held[n] /\ held[n] <= Len(log)
+                      /\ trunc[n] <= snap[n]
   /\ \A c \in Clients : cur[c] \in 0..MaxCmid
   /\ acked \subseteq [c : Clients, cmid : 1..MaxCmid]
 
-\* raft's election restriction, as assumed
+\* raft's election restriction - follows from the votes (Elect) and the commit rule (Quorum)
 LeaderComplete == leader # None => held[leader] = Len(log)
+
+\* every committed entry is durably held by a majority of the configuration: of the
+\* latest one when it is committed, of the previous one while a change is pending.
+\* This is what lets an acknowledged post survive when the quorum that acknowledged
+\* it shrinks or grows afterwards.
+CommittedOnMajority ==
+  LET M == IF pending.kind = "none" THEN members ELSE pending.prev IN
+  \A i \in 1..Len(log) : MajorityOf({n \in M : held[n] >= i}, M)
 
 \* the committed sequence only grows (assumed of raft; AckedDurable rests on it)
 LogGrows == [][IsPrefix(log, log')]_vars
 
+\* one configuration change at a time, one server at a time
+SingleServerChanges ==
+  [][/\ Cardinality((members' \ members) \cup (members \ members')) <= 1
+     /\ (members' # members => pending.kind = "none" \/ pending'.kind = "none")]_vars
+
 AckedDurable == AckedDurableP(log, acked)
 
-\* every node applied a prefix of the one committed sequence
+\* every node - member, late joiner, removed - applied a prefix of the one committed sequence
 AppliedPrefixAgreement == \A n \in Nodes : IsPrefix(Applied(n), log)
 
 \* for every session the sequences all nodes can serve are prefix-compatible
@@ -368,10 +563,17 @@ AckOnlyAfterApply ==
   [][\A a \in acked' \ acked :
         \E n \in Nodes : Occurrences(SubSeq(log, 1, IF F7 THEN applied[n] ELSE held[n]), a) # {}]_vars
 
-\* after all faults healed and everything applied, every node serves the same
-Quiescent == /\ \A n \in Nodes : Live(n) /\ applied[n] = Len(log)
+\* InstallSnapshot / restart hand a node exactly the state of a prefix of the committed
+\* sequence: never ahead of what it durably holds, never behind its snapshot
+RestoredStateIsPrefix ==
+  [][\A n \in Nodes : applied'[n] # applied[n] /\ applied'[n] # applied[n] + 1 /\ applied'[n] # 0
+        => applied'[n] = snap'[n] /\ snap'[n] <= held'[n]]_vars
+
+\* after all faults healed and everything applied, every member serves the same
+Quiescent == /\ pending.kind = "none"
+             /\ \A n \in members : Live(n) /\ applied[n] = Len(log)
 EqualAtQuiescence ==
-  Quiescent => \A s \in Clients : \A n1, n2 \in Nodes :
+  Quiescent => \A s \in Clients : \A n1, n2 \in members :
                   StreamOf(Applied(n1), s) = StreamOf(Applied(n2), s)
 
 ------------------------------------------------------------------------------
@@ -380,10 +582,13 @@ EqualAtQuiescence ==
 
 Done == /\ \A c \in Clients : cur[c] = MaxCmid /\ req[c].st = "idle"
 
-Interesting == budget.kills < MaxKills \/ budget.pauses < MaxPauses \/ budget.lc < MaxLeaderChanges
+Interesting == \/ budget.kills < MaxKills \/ budget.pauses < MaxPauses \/ budget.lc < MaxLeaderChanges
+               \/ budget.joins < MaxJoins \/ budget.parts < MaxParts
 
+\* with membership budgets, only behaviours that used them are emitted
 EmitSchedule ==
   IF Done /\ Interesting /\ Len(hist) > 1
+        /\ (MaxJoins + MaxParts > 0 => budget.joins < MaxJoins /\ pending.kind = "none")
     THEN PrintT(<<"BEHAVIOUR", ToJson(hist)>>) /\ FALSE
     ELSE TRUE
 =============================================================================
